@@ -24,7 +24,7 @@ RULE = ('scenario = one basis + one polynomial integrand + one linearisation poi
         'integer tensors; distinct = distinct (mesh kind, basis kind, element, integrand, point) / (helper, shape, '
         'variant, data); non-trivial = integrand nonlinear in u or coupling components / tensors with non-zero '
         'off-diagonal entries')
-BOUND = 2 ** 26
+BOUND = 2 ** 24
 
 
 def _ints(a, s=1):
@@ -106,6 +106,7 @@ def exec_nl(rec):
                 b = basis.zeros()
             tA, o = fem.csr_trip(A, S)
             ok &= o
+            fem.guard_sum([t[2] for t in tA], int(np.abs(x).max()) if len(x) else 0)
             bi = _ints(b, S)
             ok &= bi is not None
             ev.update(lin=1, A={'shape': [int(s) for s in A.shape], 'trip': tA}, b=bi or [])
